@@ -286,24 +286,40 @@ fn big_apply(x: &[u64], op: &BigOp) -> BigOut {
         Some(v) => v,
         None => return BigOut::Failed,
     };
+    // operands are converted before the measured window
+    let xl = to_limbs(x);
+    let yl: Vec<Limb> = match op {
+        BigOp::LargeAddFrom(y, _) | BigOp::LongMul(y) | BigOp::LargeMul(y) => to_limbs(y),
+        _ => Vec::new(),
+    };
+    let rhs: Option<Bigint> = match op {
+        BigOp::MulAssign(y) => match vec_from(y) {
+            Some(d) => Some(Bigint {
+                data: d,
+            }),
+            None => return BigOut::Failed,
+        },
+        _ => None,
+    };
+    let allocs_before = crate::cfgs::probe_allocs();
     let r: Option<()> = match op {
         BigOp::SmallAdd(y) => bigint::small_add(&mut v, *y as Limb),
         BigOp::SmallMul(y) => bigint::small_mul(&mut v, *y as Limb),
-        BigOp::LargeAddFrom(y, start) => {
+        BigOp::LargeAddFrom(_, start) => {
             if *start == 0 {
-                bigint::large_add(&mut v, &to_limbs(y))
+                bigint::large_add(&mut v, &yl)
             } else {
-                bigint::large_add_from(&mut v, &to_limbs(y), *start * RATIO)
+                bigint::large_add_from(&mut v, &yl, *start * RATIO)
             }
         }
-        BigOp::LongMul(y) => match bigint::long_mul(&to_limbs(x), &to_limbs(y)) {
+        BigOp::LongMul(_) => match bigint::long_mul(&xl, &yl) {
             Some(z) => {
                 v = z;
                 Some(())
             }
             None => None,
         },
-        BigOp::LargeMul(y) => bigint::large_mul(&mut v, &to_limbs(y)),
+        BigOp::LargeMul(_) => bigint::large_mul(&mut v, &yl),
         BigOp::Pow5(e) => bigint::pow(&mut v, *e),
         BigOp::BigintPow(base, e) => {
             let mut b = Bigint {
@@ -320,18 +336,12 @@ fn big_apply(x: &[u64], op: &BigOp) -> BigOut {
             bigint::normalize(&mut v);
             Some(())
         }
-        BigOp::MulAssign(y) => {
+        BigOp::MulAssign(_) => {
             // `*=` unwraps internally: a capacity failure is a clean panic
             let mut b = Bigint {
                 data: v.clone(),
             };
-            let rhs = match vec_from(y) {
-                Some(d) => Bigint {
-                    data: d,
-                },
-                None => return BigOut::Failed,
-            };
-            b *= &rhs;
+            b *= rhs.as_ref().unwrap();
             v = b.data;
             Some(())
         }
@@ -347,6 +357,7 @@ fn big_apply(x: &[u64], op: &BigOp) -> BigOut {
             None => None,
         },
     };
+    crate::cfgs::set_last_op_allocs(crate::cfgs::probe_allocs() - allocs_before);
     match r {
         Some(()) => BigOut::Ok {
             limbs: from_limbs(&v),
